@@ -353,6 +353,57 @@ def res_cli(run, case, rng, work):
 
 
 k_res = C01.with_workdir(res_cli)
+def k_same_process(run, case):
+    """
+    Several evo commands in one Python process (a script, a notebook): evo_ape runs with --silent
+    (or -v), then evo_res without it - the statistics table is printed, with a column / row for
+    every result, whatever the earlier commands of the process did to the logging set-up.
+    """
+    import contextlib
+    import shutil
+    from evo import main_ape, main_ape_parser, main_res, main_res_parser
+    rng = run.rng(case)
+    work = os.path.join(os.environ.get("VMON_WORK", "."), "c13s_%d" % case["rs"][-1])
+    os.makedirs(work, exist_ok=True)
+    cwd = os.getcwd()
+    try:
+        os.chdir(work)
+        zips = []
+        first_flags = [["--silent"], ["-v"], []][case.get("first", int(rng.integers(3)))]
+        for i in range(int(rng.integers(2, 4))):
+            sub = os.path.join(work, "r%d" % i)
+            os.makedirs(sub)
+            fp = C01.make_file_pair(rng, "tum", sub, n=int(rng.integers(10, 30)))
+            z = os.path.join(work, "res_%d.zip" % i)
+            argv = ["tum", fp["ref_path"], fp["est_path"], "--t_max_diff", repr(float(fp["dt"]) * 0.45), "--t_offset", "%.9f" % fp["offset"],
+                    "--save_results", z, "--no_warnings"] + (first_flags if i == 0 else [["--silent"], []][int(rng.integers(2))])
+            with contextlib.redirect_stdout(io.StringIO()), contextlib.redirect_stderr(io.StringIO()):
+                out = contracts.outcome_of(main_ape.run, main_ape_parser.parser().parse_args(argv))
+            if out[0] == "ok" and os.path.exists(z):
+                zips.append(z)
+        if len(zips) < 2:
+            run.hit("same process: fewer than two archives produced (not judged)")
+            return
+        buf = io.StringIO()
+        with contextlib.redirect_stdout(buf), contextlib.redirect_stderr(io.StringIO()):
+            out = contracts.outcome_of(main_res.run, main_res_parser.parser().parse_args(zips + ["--use_filenames", "--no_warnings"]))
+        text = buf.getvalue()
+        run.seen(case, core.digest("same-process", first_flags, len(zips)), cls=["evo_res after %s evo_ape runs in the same process" % (first_flags or ["plain"])[0]],
+                 sample={"first_flags": first_flags, "archives": len(zips), "printed_chars": len(text)})
+        if not run.check(out[0] == "ok", "evo_res succeeds after other commands of the same process", case,
+                         "evo_res raised %r" % (out[1], ), key="same-process:raised"):
+            return
+        missing = [os.path.basename(z) for z in zips if os.path.basename(z) not in text]
+        run.check(not missing and "rmse" in text, "the statistics table is printed with an entry for every result", case,
+                  "evo_res printed no table entry for %s (printed %d characters) after evo_ape %s ran in the same process" %
+                  (missing or "rmse", len(text), first_flags), key="same-process:table-not-printed")
+    finally:
+        os.chdir(cwd)
+        shutil.rmtree(work, ignore_errors=True)
+        cli._reset_logging()
+        core.silence_evo_logging()
+
+
 def k_exe_layout(run, case):
     """
     The real evo_res executable (fresh interpreter) with the options written before, after or
@@ -421,7 +472,7 @@ def k_exe_layout(run, case):
         shutil.rmtree(work, ignore_errors=True)
 
 
-KINDS = {"exe_layout": k_exe_layout, "merge": k_merge, "res": k_res}
+KINDS = {"same_process": k_same_process, "exe_layout": k_exe_layout, "merge": k_merge, "res": k_res}
 
 
 def main(run):
@@ -433,6 +484,8 @@ def main(run):
         k_merge(run, run.case("merge", i))
     for i in run.mine({"quick": 160, "thorough": 2500}[run.tier]):
         k_res(run, run.case("res", i))
+    for i in run.mine({"quick": 12, "thorough": 150}[run.tier]):
+        k_same_process(run, run.case("same_process", i, first=i % 3))
     for i in run.mine({"quick": 12, "thorough": 120}[run.tier]):
         k_exe_layout(run, run.case("exe_layout", i, layout=["between", "before", "between", "after"][i % 4],
                                    target="stdout" if i % 4 in (1, 3) and i % 8 >= 4 else "eq" if i % 4 in (1, 3) else None))
